@@ -293,6 +293,45 @@ Proof.
   - rewrite send_raw_small by assumption. rewrite !app_length. cbn [be32 length]. lia.
 Qed.
 
+(* the framing is injective: two sequences of buffers within the limit that
+   put the same bytes on the wire are the same sequence *)
+Theorem stream_injective limit ps1 ps2 :
+  limit < 4294967296 -> Forall (fits limit) ps1 -> Forall (fits limit) ps2 ->
+  stream ps1 = stream ps2 -> ps1 = ps2.
+Proof.
+  intros HL H1 H2 HS.
+  pose proof (parse_all_frames false limit ps1 HL H1) as P1.
+  pose proof (parse_all_frames false limit ps2 HL H2) as P2.
+  rewrite HS, P2 in P1. injection P1 as P1.
+  clear -P1. revert ps1 P1. induction ps2 as [|p ps IH]; intros [|q qs] H; cbn in H; try discriminate.
+  - reflexivity.
+  - injection H as -> H. f_equal. now apply IH.
+Qed.
+
+(* why buffers must be shorter than 2^32 bytes: the size header is a uint32.
+   A buffer of 2^32 + k bytes (0 < k <= limit) is announced as k bytes; the
+   receiver takes its first k bytes for the frame and parses the rest of the
+   buffer as further frames. *)
+Theorem size_wrap limit b rest k :
+  lenN b = 4294967296 + k -> 0 < k -> k <= limit -> limit < 4294967296 ->
+  parse1 limit (send_raw b ++ rest) = PFrame (takeN k b) (dropN k b ++ rest).
+Proof.
+  intros Hb Hk Hkl HL. unfold send_raw, size_of. rewrite Hb.
+  replace ((4294967296 + k) mod 4294967296) with k.
+  2:{ rewrite N.add_mod by lia. rewrite N.mod_same by lia. cbn [N.add].
+      rewrite N.mod_mod by lia. symmetry. apply N.mod_small. lia. }
+  assert (k =? 0 = false) as -> by (apply N.eqb_neq; lia).
+  unfold parse1. rewrite <- app_assoc.
+  assert (lenN (be32 k ++ b ++ rest) <? 4 = false) as ->.
+  { apply N.ltb_ge. rewrite lenN_app, lenN_be32. lia. }
+  change 4 with (lenN (be32 k)).
+  rewrite takeN_app_exact, dropN_app_exact, de32_be32 by lia.
+  assert (limit <? k = false) as -> by (apply N.ltb_ge; lia).
+  assert (lenN (b ++ rest) <? k = false) as ->.
+  { apply N.ltb_ge. rewrite lenN_app. lia. }
+  rewrite takeN_app_lt, dropN_app_lt by lia. reflexivity.
+Qed.
+
 (* ======================================================================== *)
 (* 6. envelope, Receive, handleConn                                          *)
 (* ======================================================================== *)
@@ -363,6 +402,17 @@ Section Env.
     { apply N.ltb_ge. rewrite lenN_app, H16. lia. }
     rewrite <- (H16 (type_of v)). rewrite takeN_app_exact, dropN_app_exact, Hreg.
     now rewrite (Hrt v b E).
+  Qed.
+
+  (* distinct values are distinct on the wire *)
+  Theorem marshal_injective v1 v2 buf :
+    tid_16 -> codec_roundtrip -> registered v1 -> registered v2 ->
+    marsh v1 = Some buf -> marsh v2 = Some buf -> v1 = v2.
+  Proof.
+    intros H16 Hrt R1 R2 M1 M2.
+    pose proof (unmarshal_marshal v1 buf H16 Hrt R1 M1) as U1.
+    pose proof (unmarshal_marshal v2 buf H16 Hrt R2 M2) as U2.
+    rewrite U1 in U2. now injection U2.
   Qed.
 
   (* a value comes out only of bytes that form a valid message *)
